@@ -128,7 +128,7 @@ def {n}(data: bytes, a: int, k: int) -> List[{item}]:
 
 
 HEADER = '''"""GENERATED by specs/grammar.py on every run -- do not edit.  Parser-side specification of Kafka responses."""
-from typing import List, Optional, Tuple
+from typing import Dict, List, Optional, Tuple
 
 from .prims import *  # noqa
 from .wire import *  # noqa
